@@ -38,7 +38,7 @@ pub fn make_batch(kind: SchemaKind, rows: &[RowSpec]) -> RecordBatch {
     let mut fields = vec![
         ts_field,
         Field::new("metric_name", DataType::Utf8, false),
-        Field::new("id", DataType::Int64, false),
+        Field::new("value_i64", DataType::Int64, false),
         Field::new("value_f64", DataType::Float64, true),
     ];
     let ts: Vec<i64> = rows.iter().map(|r| r.ts).collect();
@@ -60,7 +60,7 @@ pub fn make_batch(kind: SchemaKind, rows: &[RowSpec]) -> RecordBatch {
 }
 
 pub fn ids_of(batch: &RecordBatch) -> Vec<i64> {
-    match batch.column_by_name("id") {
+    match batch.column_by_name("value_i64") {
         Some(c) => match c.as_primitive_opt::<arrow_array::types::Int64Type>() {
             Some(a) => (0..a.len()).map(|i| a.value(i)).collect(),
             None => vec![],
